@@ -239,7 +239,7 @@ class WsgiTransportContext(HttpTransportContext):
         return _reconstruct_url(self.req_env)
 
     def get_path(self):
-        return self.req_env['PATH_INFO']
+        return self.req_env.get('PATH_INFO', '')
 
     def get_path_and_qs(self):
         retval = quote(self.req_env.get('PATH_INFO', ''))
@@ -370,7 +370,7 @@ class WsgiApplication(HttpBase):
                     'QUERY_STRING' in req_env
                     and req_env['QUERY_STRING'].split('=')[0].lower() == 'wsdl'
                 )
-                or req_env['PATH_INFO'].endswith('.wsdl')
+                or req_env.get('PATH_INFO', '').endswith('.wsdl')
             )
         )
 
@@ -670,13 +670,13 @@ class WsgiApplication(HttpBase):
         if ctx.method_request_string is None:
             ctx.method_request_string = '{%s}%s' % (
                                     prot.app.interface.get_tns(),
-                                    wsgi_env['PATH_INFO'].split('/')[-1])
+                                    wsgi_env.get('PATH_INFO', '').split('/')[-1])
 
         logger.debug("%sMethod name: %r%s" % (LIGHT_GREEN,
                                           ctx.method_request_string, END_COLOR))
 
         ctx.in_header_doc = ctx.transport.headers
-        ctx.in_body_doc = _parse_qs(wsgi_env['QUERY_STRING'])
+        ctx.in_body_doc = _parse_qs(wsgi_env.get('QUERY_STRING', ''))
 
         for k, v in params.items():
              if k in ctx.in_body_doc:
